@@ -5,7 +5,8 @@ mod verif_kani {
     fn conditioner() -> LinkConditioner {
         LinkConditioner {
             rng: Rng::with_seed(1),
-            ..Default::default()
+            heap: BinaryHeap::new(),
+            sequence: 0,
         }
     }
 
@@ -72,36 +73,59 @@ mod verif_kani {
         core::mem::forget(v);
     }
 
+    /// `pop` hands out a message exactly when it is due, exactly once, channel unchanged.
     #[kani::proof]
-    #[kani::unwind(5)]
-    fn vk_u14_fifo_three() {
+    #[kani::unwind(4)]
+    fn vk_u14_pop_due() {
+        let mut c = conditioner();
+        let o: u16 = kani::any();
+        let n: u16 = kani::any();
+        let ch: u8 = kani::any();
+        assert!(c.pop(base()).is_none()); // empty queue
+        c.insert(None, base() + Duration::from_millis(o as u64), ch, Bytes::new());
+        let r = c.pop(base() + Duration::from_millis(n as u64));
+        match r {
+            Some((got, p)) => {
+                assert!(n >= o && got == ch);
+                core::mem::forget(p);
+                assert!(c.pop(base() + Duration::from_millis(u16::MAX as u64)).is_none()); // delivered once
+            }
+            None => {
+                assert!(n < o);
+                // still queued: delivered as soon as it is due
+                let later = c.pop(base() + Duration::from_millis(o as u64));
+                assert!(later.is_some());
+                core::mem::forget(later);
+            }
+        }
+        kani::cover!(n == o);
+        kani::cover!(n < o);
+        core::mem::forget(c);
+    }
+
+    /// Two messages with non-decreasing timestamps come out in sending order (real BinaryHeap).
+    #[kani::proof]
+    #[kani::unwind(11)]
+    fn vk_u14_fifo_two() {
         let mut c = conditioner();
         let o1: u8 = kani::any();
         let o2: u8 = kani::any();
-        let o3: u8 = kani::any();
-        kani::assume(o1 <= o2 && o2 <= o3); // timestamps never decrease: one clock read per receiver frame
-        c.insert(None, base() + Duration::from_millis(o1 as u64), 1, payload(1));
-        c.insert(None, base() + Duration::from_millis(o2 as u64), 2, payload(2));
-        c.insert(None, base() + Duration::from_millis(o3 as u64), 3, payload(3));
-        if o1 > 0 {
-            // nothing is due yet
-            assert!(c.pop(base()).is_none());
-        }
-        let now = base() + Duration::from_millis(o3 as u64);
+        kani::assume(o1 <= o2);
+        c.insert(None, base() + Duration::from_millis(o1 as u64), 1, Bytes::new());
+        c.insert(None, base() + Duration::from_millis(o2 as u64), 2, Bytes::new());
+        let now = base() + Duration::from_millis(o2 as u64);
         let m1 = c.pop(now);
         let m2 = c.pop(now);
         let m3 = c.pop(now);
-        let m4 = c.pop(now);
-        assert!(m4.is_none());
-        match (m1, m2, m3) {
-            (Some((c1, p1)), Some((c2, p2)), Some((c3, p3))) => {
-                assert!(c1 == 1 && c2 == 2 && c3 == 3); // per-channel (here: overall) sending order
-                assert!(p1.len() == 1 && p1[0] == b'a' && p2[0] == b'b' && p3[0] == b'c');
-                core::mem::forget((p1, p2, p3));
+        assert!(m3.is_none());
+        match (m1, m2) {
+            (Some((c1, p1)), Some((c2, p2))) => {
+                assert!(c1 == 1 && c2 == 2);
+                core::mem::forget((p1, p2));
             }
             _ => assert!(false, "every queued message that is due must be delivered exactly once"),
         }
-        kani::cover!(o1 == o2 && o2 == o3);
-        kani::cover!(o1 < o2 && o2 < o3);
+        kani::cover!(o1 == o2);
+        core::mem::forget(c);
     }
 }
